@@ -47,7 +47,7 @@ class Acc:
 def job_mc(ctx, acc, variant, cfg, workers, rng):
     big = "k3b" in cfg
     cov = cfg.endswith("_kb.cfg") and not ctx.quick
-    res, dump = bt.mc(ctx, cfg, dump=True, coverage=cov, workers=workers, timeout=ctx.pick(900, 2400),
+    res, dump = bt.mc(ctx, cfg, dump=True, coverage=cov, workers=workers, timeout=ctx.pick(900, 7200),
                       heap="12g" if big else None)
     if not res.ok:
         raise InfraError("spec-level counterexample in %s: %s (triage per DESIGN 2.8; not a verdict about the code)\n%s" % (
@@ -228,7 +228,7 @@ def run(ctx):
     jobs = []
     for v in VARIANTS:
         for cfg in _cfgs(ctx, v):
-            w = 4 if "k3b" not in cfg else 8
+            w = 4 if "k3b" not in cfg else 6
             jobs.append((job_mc, (ctx, acc, v, cfg, w, random.Random(rng.random()))))
         jobs.append((job_sim, (ctx, acc, v, random.Random(rng.random()))))
         jobs.append((job_live, (ctx, acc, v)))
